@@ -291,13 +291,30 @@ func enumerate(emit emitFn, thorough bool) {
 	for _, n := range burst {
 		emit("accept-burst", []hx.T{op("OBurst", n)}, []string{"accept-burst"})
 	}
-	// a real TCP socket through the real acceptor and pomelo.StartAcceptor
-	for v := int64(0); v <= 5; v++ {
-		for _, k := range []int64{0, 3} {
-			if v == 5 && k > 0 {
-				continue
+	// REAL sockets through the real acceptors and pomelo.StartAcceptor: every transport (TCP, TCP+TLS,
+	// websocket, websocket over TLS) x every end cause that can be placed on a socket (polite
+	// close, illegal header, truncated frame, kick, undecodable message, bad handshake JSON, RST
+	// abort, heartbeat expiry, over-long frame, stalled peer + kick, stalled peer + heartbeat expiry)
+	for t := int64(0); t <= 3; t++ {
+		for v := int64(0); v <= 10; v++ {
+			for _, k := range []int64{0, 3} {
+				if (v == 5 || (!thorough && t > 0 && v != 6 && v < 9)) && k > 0 {
+					continue
+				}
+				emit("net", []hx.T{op("ONet", t, v, k)},
+					[]string{"net", fmt.Sprintf("transport-%d", t), fmt.Sprintf("net-cause-%d", v)})
 			}
-			emit("tcp", []hx.T{op("OTcp", v, k)}, []string{"tcp", fmt.Sprintf("tcp-cause-%d", v)})
+		}
+	}
+	emit("net", []hx.T{op("OTcp", 0, 2)}, []string{"net", "transport-0", "net-cause-0"})
+	// conn.Close() returns an error (what tls.Conn.Close does when the peer is gone): every
+	// cause at every stage once more, on the in-memory connection
+	for _, st := range stages {
+		for _, ca := range causes {
+			ops := append([]hx.T{}, st.ops(1)...)
+			ops = append(ops, op("OCloseErr", 1))
+			ops = append(ops, ca.ops(1)...)
+			emit("close-error", withEpilogue(ops, 1, false), []string{"stage:" + st.name, "cause:" + ca.name, "close-error"})
 		}
 	}
 }
@@ -353,9 +370,12 @@ func random(r *rand.Rand, maxLen int) ([]hx.T, []string) {
 		case p < 90:
 			ops = append(ops, op("OHeartbeat", c))
 			tags["heartbeat"] = true
-		case p < 93:
+		case p < 92:
 			ops = append(ops, op("OWfail", c))
 			tags["wfail"] = true
+		case p < 93:
+			ops = append(ops, op("OCloseErr", c))
+			tags["close-error"] = true
 		default:
 			var l []int64
 			for k := r.Intn(4); k >= 0; k-- {
